@@ -1,6 +1,8 @@
 package rules
 
 import (
+	"go/types"
+	"sort"
 	"strings"
 
 	"golang.org/x/tools/go/ssa"
@@ -129,4 +131,285 @@ func (c *Ctx) ruleIdleCheck(rule string) {
 			c.R.Ok(rule, k, c.M.InstrPos(call), "read-loop iteration", "every path back to the Decode passes a call that clears the running flag when nothing is pending (or the loop is left)")
 		}
 	}
+}
+
+// R-CHILDREN (C01, C02): a container schema (a struct with child-schema fields: the map's key and value schemas, the
+// list's item schema) hands every element of its data to its children. Structurally: in the methods of such a type,
+// a loop that calls a data method of one child field must call a data method of EVERY child field on every way round
+// the loop. A fast path that loops over the data and consults only the value schema (or skips the call on some
+// branch) accepts elements the other child would have rejected.
+func (c *Ctx) ruleChildren(rule string) {
+	pkg := c.M.Types["schema"]
+	if pkg == nil {
+		c.R.Unresolved(rule, "package schema")
+		return
+	}
+	hasDataMethods := func(t types.Type) bool {
+		var ms *types.MethodSet
+		if tp, ok := t.(*types.TypeParam); ok {
+			ms = types.NewMethodSet(tp.Constraint())
+		} else {
+			ms = types.NewMethodSet(t)
+		}
+		return ms.Lookup(pkg, "Unserialize") != nil && ms.Lookup(pkg, "Validate") != nil && ms.Lookup(pkg, "Serialize") != nil
+	}
+	dataMethod := map[string]bool{"Unserialize": true, "Validate": true, "Serialize": true, "ValidateCompatibility": true,
+		"UnserializeType": true, "ValidateType": true, "SerializeType": true}
+	n := 0
+	for _, name := range pkg.Scope().Names() {
+		tn, ok := pkg.Scope().Lookup(name).(*types.TypeName)
+		if !ok {
+			continue
+		}
+		named, ok := tn.Type().(*types.Named)
+		if !ok {
+			continue
+		}
+		st, ok := named.Underlying().(*types.Struct)
+		if !ok {
+			continue
+		}
+		var children []*types.Var
+		for i := 0; i < st.NumFields(); i++ {
+			f := st.Field(i)
+			if !f.Embedded() && hasDataMethods(f.Type()) {
+				children = append(children, f)
+			}
+		}
+		if len(children) == 0 {
+			continue
+		}
+		for _, fn := range c.M.SortedFuncs(c.scopePkg("schema")) {
+			if !c.isMethodOf(fn, named) {
+				continue
+			}
+			// calls on child fields, per block
+			calls := map[*ssa.BasicBlock]map[*types.Var]bool{}
+			for _, b := range fn.Blocks {
+				for _, in := range b.Instrs {
+					call, ok := in.(*ssa.Call)
+					if !ok || !call.Call.IsInvoke() || !dataMethod[call.Call.Method.Name()] {
+						continue
+					}
+					ld, ok := call.Call.Value.(*ssa.UnOp)
+					if !ok {
+						continue
+					}
+					fa, ok := ld.X.(*ssa.FieldAddr)
+					if !ok {
+						continue
+					}
+					fst, _ := derefType(fa.X.Type()).Underlying().(*types.Struct)
+					if fst == nil {
+						continue
+					}
+					for _, ch := range children {
+						if fst.Field(fa.Field).Origin() == ch.Origin() {
+							if calls[b] == nil {
+								calls[b] = map[*types.Var]bool{}
+							}
+							calls[b][ch] = true
+						}
+					}
+				}
+			}
+			// loops: headers of back edges
+			headers := map[*ssa.BasicBlock]bool{}
+			for _, b := range fn.Blocks {
+				for _, s := range b.Succs {
+					if s.Dominates(b) {
+						headers[s] = true
+					}
+				}
+			}
+			li := 0
+			for _, h := range fn.Blocks {
+				if !headers[h] {
+					continue
+				}
+				// blocks of the natural loop
+				loop := map[*ssa.BasicBlock]bool{h: true}
+				var stack []*ssa.BasicBlock
+				for _, p := range h.Preds {
+					if h.Dominates(p) && !loop[p] {
+						loop[p] = true
+						stack = append(stack, p)
+					}
+				}
+				for len(stack) > 0 {
+					b := stack[len(stack)-1]
+					stack = stack[:len(stack)-1]
+					for _, p := range b.Preds {
+						if !loop[p] {
+							loop[p] = true
+							stack = append(stack, p)
+						}
+					}
+				}
+				used := false
+				for b := range loop {
+					if len(calls[b]) > 0 {
+						used = true
+					}
+				}
+				if !used {
+					continue
+				}
+				li++
+				for _, ch := range children {
+					n++
+					k := key(rule, c.M.Key(fn), sprintf("loop #%d hands each element to %s", li, ch.Name()))
+					ch := ch
+					callsChild := func(b *ssa.BasicBlock) bool { return calls[b][ch] }
+					lpos := "-"
+					for _, in := range h.Instrs {
+						if in.Pos().IsValid() {
+							lpos = c.M.Pos(in.Pos())
+							break
+						}
+					}
+					if lpos == "-" {
+						for _, b := range fn.Blocks {
+							if !loop[b] || lpos != "-" {
+								continue
+							}
+							for _, in := range b.Instrs {
+								if in.Pos().IsValid() {
+									lpos = c.M.Pos(in.Pos())
+									break
+								}
+							}
+						}
+					}
+					if callsChild(h) || !blockReaches(h, h, callsChild) {
+						c.R.Ok(rule, k, lpos, "loop over the data of a container schema", "every way round the loop calls a data method of "+ch.Name())
+					} else {
+						c.R.Bad(rule, k, lpos, "a loop over the container's data can go round without consulting "+ch.Name(),
+							"the loop calls data methods of a child schema, but some path from its header back to its header never calls one on "+ch.Name()+": elements are accepted (or produced) that this child schema would have rejected (or converted)")
+					}
+				}
+			}
+		}
+	}
+	c.R.Note("%s: %d (loop, child) pairs", rule, n)
+}
+
+// R-NOCOERCE (C02, C03): "Validate and Serialize enforce the same constraints on native values" - they check, they do
+// not convert. Text-to-number / text-to-bool parsing (strconv.Parse*, strconv.Atoi, the unit parser) belongs to
+// Unserialize only. Obligation per such parsing call site reachable from Validate / Serialize / ValidateType /
+// SerializeType of any schema type: it must not be reachable (call graph, CHA on repository types).
+// A call that is reachable is a violation unless it sits behind a reflect-kind gate that excludes strings on every
+// path (MustHold on Kind() of reflect.ValueOf of the function's data parameter) at the call that enters the
+// parsing function.
+func (c *Ctx) ruleNoCoerce(rule string) {
+	entries := c.entryData("Validate", "Serialize", "ValidateType", "SerializeType")
+	// callers may reach Unserialize legitimately? No: none of the entry methods may depend on Unserialize either -
+	// but data-mode ValidateCompatibility does, and is not an entry here.
+	parsing := func(name string) bool {
+		return strings.HasPrefix(name, "strconv.Parse") || name == "strconv.Atoi" ||
+			strings.Contains(name, "UnitsDefinition).ParseInt") || strings.Contains(name, "UnitsDefinition).ParseFloat")
+	}
+	// functions that contain a parsing call
+	parsers := map[*ssa.Function][]*ssa.Call{}
+	for _, fn := range c.M.Funcs {
+		for _, b := range fn.Blocks {
+			for _, in := range b.Instrs {
+				if call, ok := in.(*ssa.Call); ok && parsing(core.StaticCalleeName(&call.Call)) {
+					parsers[fn] = append(parsers[fn], call)
+				}
+			}
+		}
+	}
+	if len(parsers) == 0 {
+		c.R.Unresolved(rule, "text-parsing calls (strconv.Parse*) in the input mappers")
+		return
+	}
+	// reachability with predecessor edges, cutting edges that are kind-gated against strings
+	type edge struct {
+		from *ssa.Function
+		site ssa.CallInstruction
+	}
+	pred := map[*ssa.Function]edge{}
+	seen := map[*ssa.Function]bool{}
+	var work []*ssa.Function
+	for _, e := range entries {
+		if !seen[e] {
+			seen[e] = true
+			work = append(work, e)
+		}
+	}
+	gated, compatCut := 0, 0
+	for len(work) > 0 {
+		f := work[len(work)-1]
+		work = work[:len(work)-1]
+		for _, e := range c.M.Edges(f) {
+			if seen[e.To] || e.Site == nil {
+				continue
+			}
+			if e.To.Name() == "ValidateCompatibility" {
+				// data-mode ValidateCompatibility is "would Unserialize accept this" by definition; the one-of uses it to
+				// pick a member before it calls that member's Validate / Serialize, which is the deciding check
+				compatCut++
+				continue
+			}
+			if c.nonStringKindGate(f, e.Site) {
+				gated++
+				continue
+			}
+			seen[e.To] = true
+			pred[e.To] = edge{f, e.Site}
+			work = append(work, e.To)
+		}
+	}
+	n := 0
+	var fns []*ssa.Function
+	for fn := range parsers {
+		fns = append(fns, fn)
+	}
+	sort.Slice(fns, func(i, j int) bool { return c.M.Key(fns[i]) < c.M.Key(fns[j]) })
+	for _, fn := range fns {
+		for i, call := range parsers[fn] {
+			n++
+			k := key(rule, c.M.Key(fn), sprintf("%s #%d is not reachable from Validate / Serialize", core.StaticCalleeName(&call.Call), i+1))
+			if !seen[fn] {
+				c.R.Ok(rule, k, c.M.InstrPos(call), "text-parsing call of an input mapper", "not reachable from any Validate / Serialize / ValidateType / SerializeType")
+				continue
+			}
+			var chain []string
+			for f := fn; f != nil; {
+				chain = append([]string{c.M.Key(f)}, chain...)
+				p, ok := pred[f]
+				if !ok {
+					break
+				}
+				f = p.from
+				if len(chain) > 12 {
+					break
+				}
+			}
+			c.R.Bad(rule, k, c.M.InstrPos(call), "Validate / Serialize can reach a text-parsing conversion",
+				"call chain "+strings.Join(chain, " -> ")+": a value that is not of the schema's native type (a numeric string, \"true\", a unit string) is converted and accepted by Validate / Serialize instead of being refused")
+		}
+	}
+	c.R.Note("%s: %d text-parsing call sites; %d call edges cut by a reflect-kind gate that excludes strings; %d edges into ValidateCompatibility not followed (a pre-check; the member's own Validate / Serialize decides)", rule, n, gated, compatCut)
+}
+
+// nonStringKindGate: the call site is reached only where Kind() of reflect.ValueOf(<an argument of the call>) was
+// established as a kind other than String (an integer / float kind switch case).
+func (c *Ctx) nonStringKindGate(fn *ssa.Function, site ssa.CallInstruction) bool {
+	in, ok := site.(ssa.Instruction)
+	if !ok {
+		return false
+	}
+	nonString := kindFact{accept: func(k int64, eq bool) bool { return eq && k != 24 && k != 0 && k != 20 }}
+	for _, a := range site.Common().Args {
+		if _, isIface := a.Type().Underlying().(*types.Interface); !isIface {
+			continue
+		}
+		path := "reflect.ValueOf(" + c.reflPath(a, 0) + ")"
+		if core.MustHold(fn, c.kindEst(path, nonString, 0))[in.Block()] {
+			return true
+		}
+	}
+	return false
 }
